@@ -250,6 +250,15 @@ def run(prop):
                             chk.violation(key, "%s assembler rejects the text of %s: %s" % (arch, os.path.basename(path), msg.strip().split("\n")[-1][:160]),
                                           "asm_%s_%s.txt" % (arch, os.path.basename(path)), "file=%s\narch=%s\nassembler message:\n%s\nLabelSafe=%s\n" % (path, arch, msg, ls))
             # --- oracles on the implementation's text
+            if prop != "C14" and R.model_line("typ lin %s" % s5p) not in ("OK", "OK true"):
+                # not linearly well-typed (an ill-typed program handed down by an earlier stage, e.g. the
+                # main-called finding): outside the domain of the backend properties
+                chk.notes["not_lintyped_programs"] = chk.notes.get("not_lintyped_programs", 0) + 1
+                continue
+            if not label_safe and prop != "C14":
+                # duplicate labels: the text is not a program any assembler accepts (C14's business, known
+                # finding asm:label-collision:unsafe-names); it has no execution to speak about
+                continue
             tuples = [[chk.rng.choice([0, 1, 2, 3, 5, 7]) for _ in range(nargs)]]
             if nargs:
                 tuples.append([chk.rng.choice([0, 1, 4, 10, 6]) for _ in range(nargs)])
@@ -298,7 +307,7 @@ def run(prop):
         R.lad.close()
     chk.obligation("corr:linearize+codegen", "correspondence", chk.corr["disagreements"] == 0,
                    "%d compared, %d disagreements" % (chk.corr["compared"], chk.corr["disagreements"]))
-    if (not proofs_ok or chk.corr["disagreements"]) and not found:
+    if (not proofs_ok or chk.corr["disagreements"]) and not chk.has_failing_input():
         what = [("%s (%s): %s" % (n, r, d)) for n, r, ok, d in chk.obligations if not ok]
         what += [json.dumps(d)[:300] for d in chk.model_disagreements[:5]]
         chk.violation("%s:unproved" % prop, "proof obligations or correspondence broken, no failing program found: " + "; ".join(what)[:600],
